@@ -396,6 +396,9 @@ class Translator:
                 if f is None:
                     raise Unsupported("trace ends inside a response")
                 # F ep g resp seq found payload appErr cls
+                if f[3] == "none":
+                    # the connection died while this reply was being decoded: NextFrame returns no message at all
+                    raise Unsupported("a reply cut off while it was being decoded (not modelled)")
                 if f[3] != "resp":
                     raise Unmapped("look-up not followed by a response frame")
                 r.resp = f
